@@ -53,9 +53,28 @@ Next ==
     /\ cs' = cs
     /\ tape' = tape
     /\ \/ x[1] = "cps" /\ \E c \in Window : x' = <<"cp", c>>
-       \/ x[1] = "hi" /\ \E lo \in 0..255 : x' = <<"cp1", x[2] * 256 + lo>>
+       \/ x[1] = "hi" /\ \E lo \in 0..15 : x' = <<"blk", x[2] * 256 + lo * 16>>      \* a block of 16 code points
        \/ x[1] = "strs" /\ \E s \in Strs(Pool, 3) : x' = <<"str", s>>
        \/ x[1] = "b0" /\ \E t \in Strs(Alpha(cs), MaxBytes(cs) - 1) : x' = <<"bs", <<x[2]>> \o t>>
+
+\* known answers (the definitions are not vacuous and mean what they should)
+ASSUME /\ Enc("utf8mb4", 8364) = <<226, 130, 172>>                    \* EURO SIGN
+       /\ Enc("utf8mb4", 1114111) = <<244, 143, 191, 191>>
+       /\ Enc("utf8mb3", 65536) = None /\ Enc("ucs2", 65536) = None /\ Enc("ascii", 128) = None
+       /\ Enc("utf16", 65536) = <<216, 0, 220, 0>> /\ Enc("utf16", 1114111) = <<219, 255, 223, 255>>
+       /\ Enc("utf16le", 8364) = <<172, 32>> /\ Enc("utf32", 128512) = <<0, 1, 246, 0>>
+       /\ Enc("utf8mb4", 55296) = None /\ Enc("utf16", 57343) = None
+       /\ Dec("utf8mb4", <<240, 144, 128, 128>>) = <<65536>>
+       /\ Dec("utf8mb3", <<240, 144, 128, 128>>) = Illformed          \* utf8mb3 rejects 4-byte sequences
+       /\ Dec("utf8mb4", <<237, 160, 128>>) = Illformed               \* encoded surrogate
+       /\ Dec("utf8mb4", <<192, 128>>) = Illformed /\ Dec("utf8mb4", <<224, 159, 191>>) = Illformed   \* overlong
+       /\ Dec("utf8mb4", <<244, 144, 128, 128>>) = Illformed          \* above 10FFFF
+       /\ Dec("utf8mb4", <<226, 130>>) = Illformed                    \* truncated
+       /\ Dec("utf16", <<216, 0>>) = Illformed /\ Dec("utf16", <<220, 0, 216, 0>>) = Illformed /\ Dec("utf16", <<0>>) = Illformed
+       /\ Dec("utf16", <<216, 61, 222, 0>>) = <<128512>>
+       /\ Dec("utf32", <<0, 17, 0, 0>>) = Illformed /\ Dec("utf32", <<0, 0, 216, 0>>) = Illformed
+       /\ Dec("ascii", <<65, 128>>) = Illformed /\ Dec("utf8mb4", <<>>) = <<>>
+       /\ EncStrReplace("ascii", <<65, 233, 66>>) = <<65, 63, 66>> /\ EncStr("ascii", <<65, 233, 66>>) = None
 
 KeyLess(k, m) == k[1] < m[1] \/ (k[1] = m[1] /\ k[2] < m[2])
 
@@ -100,7 +119,7 @@ StrLaw(s) ==
 
 ModelOK ==
     /\ (x[1] = "cp" => Cp1Law(x[2]) /\ PairLaw(x[2]))
-    /\ (x[1] = "cp1" => Cp1Law(x[2]))
+    /\ (x[1] = "blk" => \A c \in x[2]..(x[2] + 15) : Cp1Law(c))
     /\ (x[1] = "bs" => BsLaw(x[2]))
     /\ (x[1] = "str" => StrLaw(x[2]))
     /\ (x[1] = "strs" => Laws(AlgTable(cs, Pool)))
@@ -112,7 +131,7 @@ PoolSeq == <<0, 63, 65, 127, 128, 233, 255, 256, 2047, 2048, 4095, 4096, 8364, 5
 CaseOf(t) ==
     LET c == EngineAlg[1 + Mod(t[1], Len(EngineAlg))]
         n == Mod(t[2], 6)
-        ch(v) == IF Mod(v, 3) = 0 THEN PoolSeq[1 + Mod(Div(v, 3), Len(PoolSeq))]
+        ch(v) == IF Mod(v, 3) # 2 THEN PoolSeq[1 + Mod(Div(v, 3), Len(PoolSeq))]
                  ELSE LET p == Mod(Div(v, 3), MaxCP + 1) IN IF IsSurrogate(p) THEN p - 2048 ELSE p
         s == [i \in 1..n |-> ch(t[2 + i])]
     IN [cs |-> c, s |-> s, strict |-> EncStr(c, s), repl |-> EncStrReplace(c, s), back |-> Replaced(c, s)]
